@@ -165,6 +165,43 @@ def check_pairs(pairs, tol=0.0):
     return len(reqs), skipped, bad
 
 
+def params_dump():
+    """the same listing `scoring params` prints, computed from the current Parameters object and module constants"""
+    import ast
+    import inspect
+    import textwrap
+    import propka.parameters as PM
+    import propka.energy as E
+    import propka.determinants as D
+    import propka.iterative as IT
+    import propka.group as G
+    from propka.input import read_parameter_file
+    P = read_parameter_file("propka.cfg", PM.Parameters())
+    b = lambda x: str(common.bits(float(x)))
+    fl = lambda xs: ",".join(b(x) for x in xs)
+    ep = [P.Nmin, P.Nmax, P.desolvationSurfaceScalingFactor, P.desolvationPrefactor, P.desolvationAllowance, P.coulomb_cutoff1, P.coulomb_cutoff2,
+          E.UNK_DIELECTRIC1, E.UNK_DIELECTRIC2, E.UNK_PKA_SCALING1, E.UNK_BACKBONE_DISTANCE1, E.UNK_BACKBONE_DISTANCE2, E.UNK_PKA_SCALING2,
+          E.UNK_FANGLE_MIN, E.MIN_DISTANCE_4TH]
+    tree = ast.parse(textwrap.dedent(inspect.getsource(G.Group.calculate_total_pka)))
+    fixed = [n.value.value for n in ast.walk(tree) if isinstance(n, ast.Assign) and isinstance(n.value, ast.Constant) and isinstance(n.value.value, float)]
+    sc = P.sidechain_cutoffs
+    cut = [P.desolv_cutoff_squared, P.buried_cutoff_squared, P.coulomb_cutoff2_squared, P.VanDerWaalsVolume['C4'], P.sidechain_interaction,
+           sc.default[0], sc.default[1], E.COMBINED_NUM_BURIED_MAX, E.SEPARATE_NUM_BURIED_MAX, IT.UNK_MIN_VALUE, D.FANGLE_MIN, fixed[0] if fixed else float('nan')]
+    s3 = lambda d: ";".join("%s:%s:%s:%s" % (hx(k), b(v[0]), b(v[1]), b(v[2])) for k, v in d.items())
+    im = P.interaction_matrix
+    return " ".join([
+        "ep=" + fl(ep), "cut=" + fl(cut),
+        "exc=" + fl([P.COO_HIS_exception, P.OCO_HIS_exception, P.CYS_HIS_exception, P.CYS_CYS_exception]),
+        "vdw=" + ";".join("%s:%s" % (hx(k), b(v)) for k, v in P.VanDerWaalsVolume.items()),
+        "sc=" + ";".join("%s:%s:%s:%s" % (hx(a), hx(c), b(sc.dictionary[a][c][0]), b(sc.dictionary[a][c][1])) for a in sc.dictionary for c in sc.dictionary[a]),
+        "nh=" + s3(P.backbone_NH_hydrogen_bond), "co=" + s3(P.backbone_CO_hydrogen_bond),
+        "im=" + ";".join("%s:%s:%d" % (hx(a), hx(c), ord(str(im.dictionary[a][c])) if len(str(im.dictionary[a][c])) == 1 else ord('?')) for a in im.dictionary for c in im.dictionary[a]),
+        "lists=" + "|".join(",".join(hx(x) for x in l) for l in (P.angular_dependent_sidechain_interactions, P.base_list, P.exclude_sidechain_interactions,
+                                                                    P.backbone_reorganisation_list, list(P.ions.keys()))),
+        "minBond=%d" % int(P.min_bond_distance_for_hydrogen_bonds), "rp=%s" % ("true" if P.remove_penalised_group else "false"),
+        "shared=%s" % ("true" if P.shared_determinants else "false")])
+
+
 class tie:
     """`with tie(ctx, what):` - every calculate_pka call of the real code made inside the block is recorded; on exit the
     compiled Lean scoring model is run on (a bounded, de-duplicated sample of) the recorded conformations and the
@@ -200,6 +237,16 @@ class tie:
         if not getattr(ctx, "driver_ok", True):
             ctx.oblige("correspondence: Lean scoring model = real calculate_pka", False, "driver not built")
             return False
+        # read-back of the translator: what the compiled model holds is what the current Parameters object holds
+        got = common.driver_batch(["scoring params"])[0]
+        want = params_dump()
+        if got != want:
+            gd, wd = dict(x.split("=", 1) for x in got.split(" ")), dict(x.split("=", 1) for x in want.split(" "))
+            diff = [k for k in wd if gd.get(k) != wd[k]]
+        else:
+            diff = []
+        ctx.oblige("translator read-back: the scoring parameters compiled into the Lean driver = the current Parameters object and module constants (bit patterns)",
+                   not diff, "fields that differ: %r" % (diff,))
         n, skipped, bad = check_pairs(sample, tol=1e-9)
         exact = 0
         if n and not bad:
